@@ -46,7 +46,7 @@ import (
 )
 
 func init() {
-	evid.Register(&evid.Check{ID: "C08", Level: "exploration", Run: run, QuickBudget: 150 * time.Second, ThoroughBudget: 20 * time.Minute})
+	evid.Register(&evid.Check{ID: "C08", Level: "exploration", Run: run, QuickBudget: 300 * time.Second, ThoroughBudget: 20 * time.Minute})
 }
 
 // universe is the 14-path universe of DESIGN.md.
